@@ -232,7 +232,6 @@ def record_validate(ctx):
     rejected = validate(ctx, tp, "rec", parts=3)
     res["cases"] = nrec - len(rejected)
     absorb(ctx, res, "record")
-    add_extra(ctx, "traces_recorded", nrec)
     if not rejected:
         return
     # triage: re-record the rejected schedules once; only a rejection that repeats is a verdict
